@@ -10,7 +10,7 @@ Separate Extraction
   Z.add Z.mul N.add N.mul N.div N.modulo
   Tlv8.set_bytes Tlv8.set_byte Tlv8.serialise Tlv8.parse Tlv8.get_bytes Tlv8.get_byte
   Storage.st_set Storage.st_get Storage.st_delete Storage.st_keys Storage.entity_key Storage.db_load
-  Storage.db_list Storage.fs_get Storage.multi_ops Storage.apply_ops Storage.set_ops Storage.sanitize
+  Storage.db_list Storage.fs_get Storage.multi_ops Storage.apply_ops Storage.set_ops Storage.sanitize Storage.writes_ops Storage.fits
   Framing.new_server_session Framing.new_client_session Framing.send_all Framing.recv_all
   Framing.decrypt_stream Framing.decrypt_segments Framing.cc_open Framing.cc_seal Framing.spec_wire_from Framing.packets_pinned
   ConnRead.run_reads ConnRead.init_conn
